@@ -275,6 +275,9 @@ JudgeEtags(ev, post, i) ==
         \cup
         (IF \E k \in DOMAIN m.dviews : m.dviews[k] # m.xn
            THEN Viol("C17", [w |-> "report-data-differs-from-get", c |-> c, n |-> n], i)
+                \* (C02: a report that shows the member's etag next to other bytes serves two
+                \*  different bodies under one etag)
+                \cup Viol("C02", [w |-> "report-serves-other-bytes-under-the-etag", c |-> c, n |-> n], i)
            ELSE {})
         \cup
         \* strong validator over the whole history of this path
